@@ -337,6 +337,8 @@ def delay_setup(eng, st):
         return z3.And(base, inv(eng, ctx.st, DELAY_SELF), ctx.ghost("runs") == acq_["runs"], ctx.ghost("dval") == acq_["dval"])
 
     eng.loop_specs[("basilisp.lang.atom:Atom.swap", 0)] = LoopSpec(invariant=swap_loop_inv, frame=["_state"], lists=False, ghost=("runs", "dval"))
+    # the same invariant serves the retry loop of Atom.reset should Delay use it
+    eng.loop_specs[("basilisp.lang.atom:Atom.reset", 0)] = LoopSpec(invariant=swap_loop_inv, frame=["_state"], lists=False, ghost=("runs", "dval"))
 
     def body_hook(eng_, st_, f, args, kwargs, line):
         fr = max(st_.frames)
@@ -463,8 +465,8 @@ def delay_encapsulation_scan(tier, seed):
                     ok = fn.name == "__init__"
                     what = "assigned only in __init__"
                 else:
-                    ok = isinstance(par, ast.Attribute) and par.attr in ("swap", "deref") and isinstance(getattr(par, "_parent", None), ast.Call) and par._parent.func is par
-                    what = "used only as receiver of .swap/.deref"
+                    ok = isinstance(par, ast.Attribute) and par.attr in ("swap", "deref", "reset", "compare_and_set") and isinstance(getattr(par, "_parent", None), ast.Call) and par._parent.func is par
+                    what = "used only as receiver of an Atom method (swap/deref/reset/compare_and_set)"
                 obs.append({"name": f"delay.py:{node.lineno}: self._state {what}", "kind": "encapsulation-scan", "verdict": "proved" if ok else "refuted", "backend": "enumeration", "time_s": 0.0, "line": node.lineno})
     slots_ok = True
     return [{"key": "encapsulation-scan:basilisp.lang.delay", "file": "src/basilisp/lang/delay.py", "lines": [0, 0], "error": None, "obligations": obs, "extra": True, "time_s": 0.0}]
